@@ -78,7 +78,10 @@ func WriteFileAt(dir *os.File, filename string, data []byte, perm os.FileMode) e
 	if oerr != nil {
 		return oerr
 	}
+	verifKillPoint("after-open", filename)
 	_, werr := unix.Write(fd, data)
+	verifKillPoint("after-write", filename)
 	unix.Close(fd)
+	verifKillPoint("after-close", filename)
 	return werr
 }
